@@ -477,6 +477,10 @@ func (r *Redir) End() Pos {
 		if len(r.Delim) != 0 {
 			return r.Delim.End()
 		}
+		if len(r.Heredoc) != 0 {
+			// an empty delimiter
+			return r.Heredoc.End()
+		}
 	}
 	return r.Word.End()
 }
